@@ -113,18 +113,24 @@ Definition wal_of (e : entry) : action :=
   | ETimeout k h r => AWalTimeout k h r
   end.
 
+Definition entry_is_msg (e : entry) : bool :=
+  match e with EProposal _ | EPrevote _ | EPrecommit _ => true | _ => false end.
+
 Inductive shape (s : state) (i : input) (s' : state) (acts : list action) : Prop :=
 | sh_quiet : acts = [] -> obs_eq s s' -> shape s i s' acts
 | sh_logged : forall e rest, acts = wal_of e :: rest -> all_vis rest ->
     (match i with IStart _ => e = EStart (s_h s') | _ => input_of_entry e = i /\ entry_height e = s_h s end) ->
-    shape s i s' acts.
+    shape s i s' acts
+| sh_future : forall e, acts = [wal_of e] -> input_of_entry e = i -> entry_is_msg e = true ->
+    s_h s < entry_height e -> shape s i s' acts.
 
 Definition plain_cond (c : cfg) (s : state) (i : input) (s' : state) (acts : list action) : Prop :=
   match i with
   | IStart _ => True
   | ITimeout k h r => timeout_matches s k h r = true \/ select c s None = RNone
   | _ => match msg_pos i with
-         | Some (h, r) => s_started s = true /\ h <= s_h s /\ (acts = [] -> cell (s_vc s') h r = cell (s_vc s) h r)
+         | Some (h, r) => s_started s = true /\ has_trigger acts = false /\
+                          (acts = [] -> cell (s_vc s') h r = cell (s_vc s) h r)
          | None => True
          end
   end.
@@ -145,46 +151,59 @@ Proof.
   - destruct (vc_add_proposal c (s_vc s) p) as [vc ok] eqn:EA. cbn [fst snd].
     assert (Hvc : vc = fst (vc_add_proposal c (s_vc s) p)) by (rewrite EA; reflexivity).
     destruct ok; cbn [negb orb].
-    + intros [St [Hh _]]. assert (St1 : s_started (set_vc s vc) = true) by exact St. rewrite St1. cbn [negb].
-      assert (Ok : p_h p = s_h s).
+    + destruct (s_started (set_vc s vc)) eqn:St1; cbn [negb].
+      2:{ cbn [fst snd]. intros [St _]. simpl in St1. congruence. }
+      intros [St [Ht _]].
+      assert (Ge : s_h s <= p_h p).
       { destruct (N.lt_ge_cases (p_h p) (vc_h (s_vc s))) as [L|G]; [|lia].
         unfold vc_add_proposal in EA. rewrite vc_with_low in EA by exact L. inversion EA. }
-      unfold process_message. cbn [s_h set_vc]. rewrite Ok, N.eqb_refl. cbn [negb].
-      pose proof (loop_vis c FUEL (set_vc s vc) (Some (p_r p))) as L.
-      destruct (loop c FUEL (set_vc s vc) (Some (p_r p))) as [[s2 acts] ex]. cbn [fst snd] in *.
-      apply (sh_logged _ _ _ _ (EProposal p) acts); [reflexivity|exact L|split; [reflexivity|exact Ok]].
+      unfold process_message. cbn [s_h set_vc].
+      destruct (p_h p =? s_h s) eqn:Eh; cbn [negb].
+      * apply N.eqb_eq in Eh.
+        pose proof (loop_vis c FUEL (set_vc s vc) (Some (p_r p))) as L.
+        destruct (loop c FUEL (set_vc s vc) (Some (p_r p))) as [[s2 acts] ex]. cbn [fst snd] in *.
+        apply (sh_logged _ _ _ _ (EProposal p) acts); [reflexivity|exact L|split; [reflexivity|exact Eh]].
+      * cbn [fst snd]. apply (sh_future _ _ _ _ (EProposal p)); [reflexivity|reflexivity|reflexivity|simpl; lia].
     + cbn [fst snd]. intros [_ [_ Hc]]. apply sh_quiet; [reflexivity|].
       apply set_vc_self_obs. rewrite Hvc. unfold vc_add_proposal. apply vc_with_same.
       specialize (Hc eq_refl). cbn [s_vc set_vc] in Hc. rewrite Hvc in Hc. exact Hc.
   - destruct (vc_add_vote c (s_vc s) Prevote v) as [vc ok] eqn:EA. cbn [fst snd].
     assert (Hvc : vc = fst (vc_add_vote c (s_vc s) Prevote v)) by (rewrite EA; reflexivity).
     destruct ok; cbn [negb orb].
-    + intros [St [Hh _]]. assert (St1 : s_started (set_vc s vc) = true) by exact St. rewrite St1. cbn [negb].
-      assert (Ok : v_h v = s_h s).
+    + destruct (s_started (set_vc s vc)) eqn:St1; cbn [negb].
+      2:{ cbn [fst snd]. intros [St _]. simpl in St1. congruence. }
+      intros [St [Ht _]].
+      assert (Ge : s_h s <= v_h v).
       { destruct (N.lt_ge_cases (v_h v) (vc_h (s_vc s))) as [L|G]; [|lia].
         unfold vc_add_vote in EA. rewrite vc_with_low in EA by exact L. inversion EA. }
-      unfold process_message. cbn [s_h set_vc]. rewrite Ok, N.eqb_refl. cbn [negb].
-      pose proof (loop_vis c FUEL (set_vc s vc) (Some (v_r v))) as L.
-      destruct (loop c FUEL (set_vc s vc) (Some (v_r v))) as [[s2 acts] ex]. cbn [fst snd] in *.
-      apply (sh_logged _ _ _ _ (EPrevote v) acts); [reflexivity|exact L|split; [reflexivity|exact Ok]].
+      unfold process_message. cbn [s_h set_vc].
+      destruct (v_h v =? s_h s) eqn:Eh; cbn [negb].
+      * apply N.eqb_eq in Eh.
+        pose proof (loop_vis c FUEL (set_vc s vc) (Some (v_r v))) as L.
+        destruct (loop c FUEL (set_vc s vc) (Some (v_r v))) as [[s2 acts] ex]. cbn [fst snd] in *.
+        apply (sh_logged _ _ _ _ (EPrevote v) acts); [reflexivity|exact L|split; [reflexivity|exact Eh]].
+      * cbn [fst snd]. apply (sh_future _ _ _ _ (EPrevote v)); [reflexivity|reflexivity|reflexivity|simpl; lia].
     + cbn [fst snd]. intros [_ [_ Hc]]. apply sh_quiet; [reflexivity|].
       apply set_vc_self_obs. rewrite Hvc. unfold vc_add_vote. apply vc_with_same.
       specialize (Hc eq_refl). cbn [s_vc set_vc] in Hc. rewrite Hvc in Hc. exact Hc.
   - destruct (vc_add_vote c (s_vc s) Precommit v) as [vc ok] eqn:EA. cbn [fst snd].
     assert (Hvc : vc = fst (vc_add_vote c (s_vc s) Precommit v)) by (rewrite EA; reflexivity).
     destruct ok; cbn [negb orb].
-    + intros [St [Hh _]]. assert (St1 : s_started (set_vc s vc) = true) by exact St. rewrite St1. cbn [negb].
-      assert (Ok : v_h v = s_h s).
+    + destruct (s_started (set_vc s vc)) eqn:St1; cbn [negb].
+      2:{ cbn [fst snd]. intros [St _]. simpl in St1. congruence. }
+      match goal with |- context [if ?b then _ else _] => destruct b eqn:ETS end.
+      { unfold trigger_sync. cbn [fst snd]. intros [_ [Ht _]]. discriminate. }
+      intros [St [Ht _]].
+      assert (Ge : s_h s <= v_h v).
       { destruct (N.lt_ge_cases (v_h v) (vc_h (s_vc s))) as [L|G]; [|lia].
         unfold vc_add_vote in EA. rewrite vc_with_low in EA by exact L. inversion EA. }
-      assert (NoTS : (s_h (set_vc s vc) <? v_h v) = false) by (cbn [s_h set_vc]; lia).
-      rewrite NoTS. cbn [andb].
-      assert (X : (match v_id v with Some _ => false | None => false end) = false) by (destruct (v_id v); reflexivity).
-      rewrite X.
-      unfold process_message. cbn [s_h set_vc]. rewrite Ok, N.eqb_refl. cbn [negb].
-      pose proof (loop_vis c FUEL (set_vc s vc) (Some (v_r v))) as L.
-      destruct (loop c FUEL (set_vc s vc) (Some (v_r v))) as [[s2 acts] ex]. cbn [fst snd] in *.
-      apply (sh_logged _ _ _ _ (EPrecommit v) acts); [reflexivity|exact L|split; [reflexivity|exact Ok]].
+      unfold process_message. cbn [s_h set_vc].
+      destruct (v_h v =? s_h s) eqn:Eh; cbn [negb].
+      * apply N.eqb_eq in Eh.
+        pose proof (loop_vis c FUEL (set_vc s vc) (Some (v_r v))) as L.
+        destruct (loop c FUEL (set_vc s vc) (Some (v_r v))) as [[s2 acts] ex]. cbn [fst snd] in *.
+        apply (sh_logged _ _ _ _ (EPrecommit v) acts); [reflexivity|exact L|split; [reflexivity|exact Eh]].
+      * cbn [fst snd]. apply (sh_future _ _ _ _ (EPrecommit v)); [reflexivity|reflexivity|reflexivity|simpl; lia].
     + cbn [fst snd]. intros [_ [_ Hc]]. apply sh_quiet; [reflexivity|].
       apply set_vc_self_obs. rewrite Hvc. unfold vc_add_vote. apply vc_with_same.
       specialize (Hc eq_refl). cbn [s_vc set_vc] in Hc. rewrite Hvc in Hc. exact Hc.
